@@ -33,6 +33,7 @@ long vx_enum_index (void);
 const char *vx_obs_text (void);
 void vx_scan_now (void);                          /* scan sanitizer output produced so far into fails */
 void vx_child_exit (int code);                    /* finish this execution early (records, then _exit) */
+void vx_enum_restart (void);                      /* --enum: after this element, run the rest of the batch in a fresh child */
 void vx_detach (void);                            /* (added for C01) a process forked BY a child stops recording into the child's slot:
                                                      vx_fail prints to stderr, vx_obs/vx_count/vx_scan_now become no-ops */
 
